@@ -1230,6 +1230,8 @@ class Interp:
         raise Unsupported("attribute store on native %s" % type(obj).__name__)
 
     def setitem(self, obj, idx, value):
+        if isinstance(obj, dict) and contains_sym(idx):
+            return self.models.symdict_set(self.ctx, self, obj, idx, value)
         if isinstance(obj, (list, dict)):
             if contains_sym(idx):
                 raise Unsupported("symbolic subscript store")
